@@ -244,6 +244,7 @@ func (w *WaitGroup) Wait() {
 		return
 	}
 	zsim.Yield("wg.wait")
+	woken := false
 	for {
 		r.Lock()
 		w.sync(r)
@@ -251,8 +252,15 @@ func (w *WaitGroup) Wait() {
 			r.Unlock()
 			return
 		}
+		if woken {
+			// like sync.WaitGroup: the counter went to zero and released this waiter, and was raised again before
+			// the waiter got to run
+			r.Unlock()
+			panic("sync: WaitGroup is reused before previous Wait has returned")
+		}
 		w.waiters = append(w.waiters, t)
 		zsim.BlockLocked(r, t, "wg.waiting")
+		woken = true
 	}
 }
 
